@@ -1,7 +1,595 @@
 package main
 
-import "time"
+import (
+	"encoding/json"
+	"fmt"
+	"os"
+	"path/filepath"
+	"strings"
+	"time"
 
-func genSession(seed uint64, idx int, steps int, kind string, work string, settle time.Duration) (sessionOut, error) {
-	return sessionOut{}, nil
+	"gmqverif/harness/hx"
+
+	"github.com/valinurovam/garagemq/server"
+)
+
+// genSession generates one session ONLINE against the implementation: every
+// choice comes from the seeded PRNG and from what the broker answered so far,
+// so the recorded script replays exactly.
+//
+// kind "exact": the session stays inside the schedules whose quiescent outcome
+// does not depend on goroutine timing (at most one started consumer per queue
+// and per shared prefetch window; batch returns only to queues nobody can pop
+// concurrently), so frames and snapshots are compared verbatim with the model.
+// kind "racy": no such restriction (several consumers per queue, shared
+// windows); judged by the property monitors only.
+type gen struct {
+	r      *hx.Rng
+	s      *session
+	kind   string
+	uid    int
+	ntag   int
+	conns  []int
+	nconn  int
+	out    *json.Encoder
+	nsteps int
+	// what the client has seen
+	outstanding map[[2]int][]int // (conn,ch) -> delivery tags seen and not yet settled by us
+	chans       map[int][]int    // conn -> channels we opened
+	pendClose   [][2]int         // channels the broker asked to close (awaiting close-ok)
+	pendConn    []int            // connections the broker asked to close
+	confirm     map[[2]int]bool
+	wedged      bool
+	dist        map[string]int
+}
+
+var qnames = []string{"q1", "q2", "q3", "qa.b", "q_x"}
+var xnames = []string{"x1", "x2", "x3"}
+var keys = []string{"k1", "k2", "a.b", "a.b.c", "a", "b"}
+var patterns = []string{"k1", "a.*", "a.#", "#", "*.b", "#.c", "a.b", "*"}
+
+func (g *gen) pick(xs []string) string { return xs[g.r.Intn(len(xs))] }
+func (g *gen) b(num, den int) string {
+	if g.r.Chance(num, den) {
+		return "1"
+	}
+	return "0"
+}
+
+func (g *gen) do(op string) stepResult {
+	f := strings.Fields(op)
+	g.dist[f[0]]++
+	_ = g.out.Encode(map[string]interface{}{"about": op})
+	r := g.s.step(op)
+	_ = g.out.Encode(map[string]interface{}{"step": r})
+	g.nsteps++
+	g.observe(op, r)
+	return r
+}
+
+// observe updates the client-side view from the frames of a step
+func (g *gen) observe(op string, r stepResult) {
+	if strings.Contains(r.Note, "WEDGED") || strings.Contains(r.Note, "TIMEOUT") {
+		g.wedged = true
+	}
+	for _, fr := range r.Frames {
+		// "c.h:name(args)"
+		colon := strings.Index(fr, ":")
+		if colon < 0 {
+			continue
+		}
+		var c, h int
+		fmt.Sscanf(fr[:colon], "%d.%d", &c, &h)
+		body := fr[colon+1:]
+		key := [2]int{c, h}
+		switch {
+		case strings.HasPrefix(body, "basic.deliver("):
+			parts := strings.Split(body[len("basic.deliver("):], ",")
+			if len(parts) > 1 {
+				g.outstanding[key] = append(g.outstanding[key], atoi(parts[1]))
+			}
+		case strings.HasPrefix(body, "basic.get-ok("):
+			parts := strings.Split(body[len("basic.get-ok("):], ",")
+			g.outstanding[key] = append(g.outstanding[key], atoi(parts[0]))
+		case strings.HasPrefix(body, "channel.close("):
+			g.pendClose = append(g.pendClose, key)
+		case strings.HasPrefix(body, "connection.close("):
+			g.pendConn = append(g.pendConn, c)
+		case body == "GONE":
+			g.dropConn(c)
+		}
+	}
+}
+
+func (g *gen) dropConn(c int) {
+	for i, x := range g.conns {
+		if x == c {
+			g.conns = append(g.conns[:i], g.conns[i+1:]...)
+			break
+		}
+	}
+	delete(g.chans, c)
+	for k := range g.outstanding {
+		if k[0] == c {
+			delete(g.outstanding, k)
+		}
+	}
+}
+
+func (g *gen) removeTag(key [2]int, tag int, mult bool) {
+	var keep []int
+	for _, t := range g.outstanding[key] {
+		if t == tag || (mult && (tag == 0 || t <= tag)) {
+			continue
+		}
+		keep = append(keep, t)
+	}
+	g.outstanding[key] = keep
+}
+
+func (g *gen) snap() server.VerifSnapshot {
+	sn, _ := g.s.snapshot(true)
+	return sn
+}
+
+func (g *gen) anyChan() (int, int, bool) {
+	if len(g.conns) == 0 {
+		return 0, 0, false
+	}
+	c := g.conns[g.r.Intn(len(g.conns))]
+	hs := g.chans[c]
+	if len(hs) == 0 {
+		return c, 0, false
+	}
+	return c, hs[g.r.Intn(len(hs))], true
+}
+
+type qinfo struct {
+	name      string
+	consumers int
+	started   int
+	excl      bool
+	owner     uint64
+	ready     int
+}
+
+func (g *gen) queues(sn server.VerifSnapshot) []qinfo {
+	var out []qinfo
+	started := map[string]int{}
+	for _, cs := range sn.Connections {
+		for _, ch := range cs.Channels {
+			for _, cm := range ch.Consumers {
+				if cm.Status == 0 {
+					started[cm.Queue]++
+				}
+			}
+		}
+	}
+	for _, q := range sn.Queues {
+		if !q.Active {
+			continue
+		}
+		out = append(out, qinfo{name: q.Name, consumers: len(q.Consumers), started: started[q.Name], excl: q.Exclusive, owner: q.ConnID, ready: len(q.Ready)})
+	}
+	return out
+}
+
+func (g *gen) existingQueue(sn server.VerifSnapshot) string {
+	qs := g.queues(sn)
+	if len(qs) == 0 || g.r.Chance(1, 12) {
+		return g.pick(qnames)
+	}
+	return qs[g.r.Intn(len(qs))].name
+}
+
+func (g *gen) existingExchange(sn server.VerifSnapshot, allowDefault bool) string {
+	var xs []string
+	for _, e := range sn.Exchanges {
+		if e.Name == "" && !allowDefault {
+			continue
+		}
+		xs = append(xs, e.Name)
+	}
+	if len(xs) == 0 || g.r.Chance(1, 15) {
+		return "nox"
+	}
+	x := xs[g.r.Intn(len(xs))]
+	if x == "" {
+		return "-"
+	}
+	return x
+}
+
+// channel snapshot lookup
+func chanSnap(sn server.VerifSnapshot, c, h int) *server.VerifChannelSnap {
+	for i := range sn.Connections {
+		if int(sn.Connections[i].ID) == c {
+			for j := range sn.Connections[i].Channels {
+				if int(sn.Connections[i].Channels[j].ID) == h {
+					return &sn.Connections[i].Channels[j]
+				}
+			}
+		}
+	}
+	return nil
+}
+
+func connSnap(sn server.VerifSnapshot, c int) *server.VerifConnSnap {
+	for i := range sn.Connections {
+		if int(sn.Connections[i].ID) == c {
+			return &sn.Connections[i]
+		}
+	}
+	return nil
+}
+
+// exact-mode guards -------------------------------------------------------
+
+// batchReturnSafe: returning all unacked deliveries of (c,h) [or of the tags <= upTo] is schedule-independent:
+// every queue that gets two or more messages back has no started consumer outside the closing scope.
+func (g *gen) batchReturnSafe(sn server.VerifSnapshot, c int, hs []int, upTo int, closing bool) bool {
+	if g.kind != "exact" {
+		return true
+	}
+	count := map[string]int{}
+	inScope := map[[2]int]bool{}
+	for _, h := range hs {
+		inScope[[2]int{c, h}] = true
+		if ch := chanSnap(sn, c, h); ch != nil {
+			for _, u := range ch.Unacked {
+				if upTo == 0 || int(u.Tag) <= upTo {
+					count[u.Queue]++
+				}
+			}
+		}
+	}
+	for _, cs := range sn.Connections {
+		for _, ch := range cs.Channels {
+			for _, cm := range ch.Consumers {
+				if cm.Status != 0 || count[cm.Queue] == 0 {
+					continue
+				}
+				if closing && inScope[[2]int{int(cs.ID), int(ch.ID)}] {
+					continue
+				}
+				// any message returned to a queue that has a started consumer elsewhere can be popped while
+				// the handler is still returning the next one
+				if count[cm.Queue] >= 2 {
+					return false
+				}
+				// one message back, but the same handler also releases windows/other queues: fine
+			}
+		}
+	}
+	return true
+}
+
+// sharedWindowSafe: adding a consumer on (c,h) keeps at most one started consumer per active shared window
+func (g *gen) sharedWindowSafe(sn server.VerifSnapshot, c, h int) bool {
+	if g.kind != "exact" {
+		return true
+	}
+	ch := chanSnap(sn, c, h)
+	cn := connSnap(sn, c)
+	if ch == nil || cn == nil {
+		return true
+	}
+	active := func(q [4]uint64) bool { return q[0] != 0 || q[1] != 0 }
+	if active(ch.Qos) {
+		for _, cm := range ch.Consumers {
+			if cm.Status != 1 {
+				return false
+			}
+		}
+	}
+	if !g.s.cfg.Rabbit && active(cn.Qos) {
+		for _, x := range cn.Channels {
+			for _, cm := range x.Consumers {
+				if cm.Status != 1 {
+					return false
+				}
+			}
+		}
+	}
+	return true
+}
+
+func countConsumers(ch *server.VerifChannelSnap) int {
+	n := 0
+	for _, cm := range ch.Consumers {
+		if cm.Status != 1 {
+			n++
+		}
+	}
+	return n
+}
+
+// ------------------------------------------------------------------------
+
+func (g *gen) stepRandom() {
+	sn := g.snap()
+	// answer broker-initiated closes first (most of the time)
+	if len(g.pendConn) > 0 {
+		c := g.pendConn[0]
+		g.pendConn = g.pendConn[1:]
+		if g.s.clients[c] != nil && !g.s.gone[c] {
+			g.do(fmt.Sprintf("CLOSEOK %d", c))
+			g.dropConn(c)
+			return
+		}
+	}
+	if len(g.pendClose) > 0 && g.r.Chance(9, 10) {
+		k := g.pendClose[0]
+		g.pendClose = g.pendClose[1:]
+		if g.s.clients[k[0]] != nil && !g.s.gone[k[0]] {
+			if g.batchReturnSafe(sn, k[0], []int{k[1]}, 0, true) {
+				g.do(fmt.Sprintf("CHCLOSEOK %d %d", k[0], k[1]))
+				delete(g.outstanding, k)
+				if g.r.Chance(2, 3) {
+					g.do(fmt.Sprintf("CH %d %d", k[0], k[1]))
+				} else {
+					g.forgetChan(k[0], k[1])
+				}
+			}
+			return
+		}
+	}
+	if len(g.conns) == 0 || (len(g.conns) < 3 && g.r.Chance(1, 25)) {
+		g.openConn()
+		return
+	}
+	c, h, ok := g.anyChan()
+	if !ok {
+		g.openChan(c)
+		return
+	}
+	key := [2]int{c, h}
+	k := g.r.Intn(1000)
+	switch {
+	case k < 90: // queue.declare
+		name := g.pick(qnames)
+		pas := g.b(1, 8)
+		g.do(fmt.Sprintf("QD %d %d %s %s %s %s %s %s", c, h, name, g.b(1, 3), g.b(1, 7), g.b(1, 6), pas, g.b(1, 10)))
+	case k < 120: // exchange.declare
+		ty := []string{"direct", "fanout", "topic", "headers", "direct", "fanout", "topic", "bogus"}[g.r.Intn(8)]
+		name := g.pick(xnames)
+		if g.r.Chance(1, 15) {
+			name = "amq.x"
+		}
+		g.do(fmt.Sprintf("XD %d %d %s %s %s %s %s %s %s", c, h, name, ty, g.b(1, 3), g.b(1, 8), g.b(1, 8), g.b(1, 8), g.b(1, 10)))
+	case k < 175: // bind
+		q := g.existingQueue(sn)
+		x := g.existingExchange(sn, g.r.Chance(1, 10))
+		key := g.pick(patterns)
+		if g.r.Chance(1, 2) {
+			key = g.pick(keys)
+		}
+		g.do(fmt.Sprintf("QB %d %d %s %s %s - %s", c, h, q, x, key, g.b(1, 10)))
+	case k < 195: // unbind
+		q := g.existingQueue(sn)
+		x := g.existingExchange(sn, false)
+		key := g.pick(patterns)
+		if g.r.Chance(1, 2) {
+			key = g.pick(keys)
+		}
+		g.do(fmt.Sprintf("QU %d %d %s %s %s -", c, h, q, x, key))
+	case k < 470: // publish
+		g.uid++
+		var ex, key string
+		if g.r.Chance(3, 5) {
+			ex, key = "-", g.existingQueue(sn)
+		} else {
+			ex, key = g.existingExchange(sn, false), g.pick(keys)
+		}
+		lens := fmt.Sprint(1 + g.r.Intn(30))
+		if g.r.Chance(1, 12) {
+			lens = fmt.Sprintf("%d+%d", 1+g.r.Intn(5), 1+g.r.Intn(5))
+		}
+		g.do(fmt.Sprintf("PUB %d %d %s %s %s %s %s %d %s", c, h, ex, key, g.b(1, 3), g.b(1, 40), g.b(1, 3), g.uid, lens))
+	case k < 560: // consume
+		q := g.existingQueue(sn)
+		if g.kind == "exact" {
+			for _, qi := range g.queues(sn) {
+				if qi.name == q && qi.started > 0 {
+					return
+				}
+			}
+			if !g.sharedWindowSafe(sn, c, h) {
+				return
+			}
+			// a paused channel's consumer counts as a consumer too
+			if ch := chanSnap(sn, c, h); ch != nil {
+				for _, cm := range ch.Consumers {
+					if cm.Queue == q {
+						return
+					}
+				}
+			}
+			for _, qq := range sn.Queues {
+				if qq.Name == q && len(qq.Consumers) > 0 {
+					return
+				}
+			}
+		}
+		g.ntag++
+		g.do(fmt.Sprintf("CONS %d %d %s t%d %s %s %s", c, h, q, g.ntag, g.b(1, 4), g.b(1, 10), g.b(1, 10)))
+	case k < 590: // cancel
+		ch := chanSnap(sn, c, h)
+		tag := "tx"
+		if ch != nil && len(ch.Consumers) > 0 && g.r.Chance(9, 10) {
+			tag = ch.Consumers[g.r.Intn(len(ch.Consumers))].Tag
+		}
+		g.do(fmt.Sprintf("CANCEL %d %d %s %s", c, h, tag, g.b(1, 10)))
+	case k < 660: // get
+		g.do(fmt.Sprintf("GET %d %d %s %s", c, h, g.existingQueue(sn), g.b(2, 5)))
+	case k < 800: // ack / nack / reject
+		tags := g.outstanding[key]
+		tag := 0
+		if len(tags) > 0 && g.r.Chance(9, 10) {
+			tag = tags[g.r.Intn(len(tags))]
+		} else if g.r.Chance(1, 2) {
+			tag = 1 + g.r.Intn(6)
+		} else {
+			tag = 90
+		}
+		mult := g.r.Chance(1, 4)
+		if tag == 0 {
+			mult = true
+		}
+		which := g.r.Intn(10)
+		switch {
+		case which < 5:
+			g.do(fmt.Sprintf("ACK %d %d %d %s", c, h, tag, b2s(mult)))
+			g.removeTag(key, tag, mult)
+		case which < 8:
+			requeue := g.r.Chance(2, 3)
+			if mult && requeue {
+				up := tag
+				if !g.batchReturnSafe(sn, c, []int{h}, up, false) {
+					return
+				}
+			}
+			g.do(fmt.Sprintf("NACK %d %d %d %s %s", c, h, tag, b2s(mult), b2s(requeue)))
+			g.removeTag(key, tag, mult)
+		default:
+			g.do(fmt.Sprintf("REJ %d %d %d %s", c, h, tag, g.b(2, 3)))
+			g.removeTag(key, tag, false)
+		}
+	case k < 840: // qos
+		if g.kind == "exact" {
+			// a shared window may only become active while at most one consumer is in its scope
+			ch := chanSnap(sn, c, h)
+			cn := connSnap(sn, c)
+			if ch != nil && countConsumers(ch) > 1 {
+				return
+			}
+			if !g.s.cfg.Rabbit && cn != nil {
+				n := 0
+				for i := range cn.Channels {
+					n += countConsumers(&cn.Channels[i])
+				}
+				if n > 1 {
+					return
+				}
+			}
+		}
+		size := 0
+		if g.r.Chance(1, 4) {
+			size = 20 + g.r.Intn(40)
+		}
+		g.do(fmt.Sprintf("QOS %d %d %d %d %s", c, h, g.r.Intn(4), size, g.b(1, 2)))
+	case k < 865: // flow
+		g.do(fmt.Sprintf("FLOW %d %d %s", c, h, g.b(1, 2)))
+	case k < 885: // confirm.select
+		g.do(fmt.Sprintf("CONFIRM %d %d %s", c, h, g.b(1, 8)))
+	case k < 905: // purge
+		g.do(fmt.Sprintf("QP %d %d %s %s", c, h, g.existingQueue(sn), g.b(1, 8)))
+	case k < 935: // queue.delete
+		g.do(fmt.Sprintf("QDEL %d %d %s %s %s %s", c, h, g.existingQueue(sn), g.b(1, 3), g.b(1, 3), g.b(1, 10)))
+	case k < 955: // channel close (+ reopen)
+		if !g.batchReturnSafe(sn, c, []int{h}, 0, true) {
+			return
+		}
+		g.do(fmt.Sprintf("CHCLOSE %d %d", c, h))
+		delete(g.outstanding, key)
+		if g.r.Chance(1, 2) && !g.confirm[key] {
+			g.do(fmt.Sprintf("CH %d %d", c, h))
+		} else {
+			g.forgetChan(c, h)
+		}
+	case k < 965: // new channel
+		g.openChan(c)
+	case k < 980: // connection drop / close
+		if !g.batchReturnSafe(sn, c, g.chans[c], 0, true) {
+			return
+		}
+		if g.r.Chance(1, 2) {
+			g.do(fmt.Sprintf("DROP %d", c))
+		} else {
+			g.do(fmt.Sprintf("CLOSE %d", c))
+		}
+		g.dropConn(c)
+	case k < 990: // unsupported methods
+		switch g.r.Intn(3) {
+		case 0:
+			g.do(fmt.Sprintf("TXSELECT %d %d", c, h))
+		case 1:
+			g.do(fmt.Sprintf("XDEL %d %d %s 0 0", c, h, g.pick(xnames)))
+		default:
+			g.do(fmt.Sprintf("RECOVER %d %d 1", c, h))
+		}
+	default:
+		g.openChan(c)
+	}
+}
+
+func (g *gen) forgetChan(c, h int) {
+	var keep []int
+	for _, x := range g.chans[c] {
+		if x != h {
+			keep = append(keep, x)
+		}
+	}
+	g.chans[c] = keep
+}
+
+func (g *gen) openConn() {
+	g.nconn++
+	c := g.nconn
+	r := g.do(fmt.Sprintf("OPEN %d", c))
+	if r.Note != "" {
+		return
+	}
+	g.conns = append(g.conns, c)
+	g.openChan(c)
+}
+
+func (g *gen) openChan(c int) {
+	if len(g.chans[c]) >= 3 {
+		return
+	}
+	h := 1
+	used := map[int]bool{}
+	for _, x := range g.chans[c] {
+		used[x] = true
+	}
+	for used[h] {
+		h++
+	}
+	g.do(fmt.Sprintf("CH %d %d", c, h))
+	g.chans[c] = append(g.chans[c], h)
+}
+
+func genSession(seed uint64, idx int, steps int, kind string, work string, settle time.Duration, rabbit int, engine string) error {
+	r := hx.NewRng(seed*1000003 + uint64(idx)*7919 + 17)
+	cfg := sessionCfg{Rabbit: r.Chance(3, 4), Engine: "buntdb"}
+	if rabbit == 0 {
+		cfg.Rabbit = false
+	} else if rabbit == 1 {
+		cfg.Rabbit = true
+	}
+	if engine == "badger" || (engine == "" && r.Chance(1, 6)) {
+		cfg.Engine = "badger"
+		cfg.Dir = filepath.Join(work, fmt.Sprintf("badger-%d-%d-%d", os.Getpid(), seed, idx))
+	}
+	enc := json.NewEncoder(os.Stdout)
+	id := fmt.Sprintf("%s-%d-%d", kind, seed, idx)
+	_ = enc.Encode(map[string]interface{}{"session": id, "cfg": cfg, "kind": kind})
+	s, err := newSession(cfg, settle)
+	if err != nil {
+		return err
+	}
+	defer s.stop()
+	g := &gen{r: r, s: s, kind: kind, out: enc, outstanding: map[[2]int][]int{}, chans: map[int][]int{}, confirm: map[[2]int]bool{}, dist: map[string]int{}}
+	g.openConn()
+	if r.Chance(2, 3) {
+		g.openConn()
+	}
+	guard := 0
+	for g.nsteps < steps && !g.wedged && guard < steps*20 {
+		guard++
+		g.stepRandom()
+	}
+	_ = enc.Encode(map[string]interface{}{"end": id, "dist": g.dist})
+	return nil
 }
